@@ -186,6 +186,9 @@ def run(ctx):
             m = int(rng.integers(3, 40))
             steps = rng.exponential(1.0, (R, m))
             steps[rng.random((R, m)) < 0.35] = 0.0  # plateaus
+            # steps of every scale: neighbouring nodes that differ by 1e-17 .. 1e-6 are distinct nodes
+            tiny = rng.random((R, m)) < 0.15
+            steps[tiny] = 10.0 ** rng.uniform(-17, -6, int(tiny.sum()))
             steps[:, 0] = 0.0
             xs = np.cumsum(steps, axis=1)
             if rng.random() < 0.5:
@@ -201,6 +204,10 @@ def run(ctx):
             q = lo + rng.uniform(0, 1, R) * (hi - lo)
             pick = rng.random(R) < 0.25  # exact node values (plateau / non-plateau)
             q = np.where(pick, xs[np.arange(R), rng.integers(1, m - 1, R)], q)
+            # a quarter of the queries sit in the middle of a randomly chosen bracket (whatever its width)
+            jb = rng.integers(0, m - 1, R)
+            mid = 0.5 * (xs[np.arange(R), jb] + xs[np.arange(R), jb + 1])
+            q = np.where(rng.random(R) < 0.25, mid, q)
             inside = (q > lo) & (q < hi)
             xs, q = xs[inside], q[inside]
             R = xs.shape[0]
@@ -215,6 +222,14 @@ def run(ctx):
             z, zlo, zhi = T.invert_rows(xs, ys, q)
             ctx.count("row-interp", R)
             tol = 1e-12 * np.maximum(np.abs(zhi), 1e-300) + 1e-15
+            # conditioning of (q - x0) / (x1 - x0) in a narrow bracket: a few ulps of x over its width
+            jr = np.clip((xs <= q[:, None]).sum(axis=1) - 1, 0, m - 2)
+            x0, x1 = xs[np.arange(R), jr], xs[np.arange(R), jr + 1]
+            dy = ys[jr + 1] - ys[jr]
+            with np.errstate(divide="ignore", invalid="ignore"):
+                cond = np.where(x1 > x0, np.minimum(1.0, 8 * 2.0**-52 * np.maximum(np.abs(x1), 1e-300) / (x1 - x0)), 0.0) * dy
+            tol = tol + cond
+            ctx.obs["row_interp_narrow_brackets_judged"] = ctx.obs.get("row_interp_narrow_brackets_judged", 0) + int(((x1 - x0 > 0) & (x1 - x0 < 1e-8) & (cond < 0.01 * dy)).sum())
             ok = (got >= zlo - tol) & (got <= zhi + tol)
             if got.shape != z.shape or not np.all(ok):
                 i = int(np.flatnonzero(~ok)[0]) if got.shape == z.shape else 0
